@@ -149,6 +149,19 @@ impl TableProvider {
         }
     }
 
+    /// The form of the provider's answers, as a pure function of the universe: a quarter of the
+    /// universes get `filter_candidates` answers in reverse listing order (the trait promises no
+    /// order; nothing the solver computes may depend on it), and the iterator handed out by
+    /// `version_sets_in_union` reports its size exactly, not at all, or with a lower bound of one.
+    pub fn vary_answers(&self) {
+        self.filter_reversed.set(crate::runner::hash_of(&*self.u) % 4 == 0);
+        match crate::runner::hash_of(&(&*self.u, 1u8)) % 6 {
+            0 => self.union_iter_unbounded.set(true),
+            1 => self.union_iter_lower_one.set(true),
+            _ => {}
+        }
+    }
+
     pub fn from_requirement(&self, r: Requirement) -> Option<Req> {
         match r {
             Requirement::Single(v) => self.ix.vset.get(&v.0).map(|&i| Req::Single(i)),
@@ -177,7 +190,11 @@ impl TableProvider {
         Some(Candidates {
             candidates: p.cands.iter().map(|c| SolvableId(c.sid)).collect(),
             favored: p.favored.map(|i| SolvableId(p.cands[i].sid)),
-            locked: p.locked.map(|i| SolvableId(p.cands[i].sid)),
+            locked: if p.lock_gone {
+                p.unlisted.last().map(|c| SolvableId(c.sid))
+            } else {
+                p.locked.map(|i| SolvableId(p.cands[i].sid))
+            },
             hint_dependencies_available: match &p.hint {
                 Hint::None => HintDependenciesAvailable::None,
                 Hint::All => HintDependenciesAvailable::All,
